@@ -20,7 +20,8 @@ CLAIMED = {
         "read_data/write_data results are tested; per-segment header lists are written in the stream's segment order; every key the "
         "projection-data header writer emits is registered by the reader classes with the same vectorisation; every read path of "
         "ProjDataFromStream applies scale_factor exactly once (raw reads are scaled before every return, data from another getter is not "
-        "scaled again). Value round trips, byte order, number-type conversion and header values are NOT decided.",
+        "scaled again) and every write path divides by it once before the raw write (a value the float scale cannot represent is an "
+        "error, not silently rounded: defect F12, fixed). Value round trips, byte order, number-type conversion and header values are NOT decided.",
         technique="static analysis: must-facts dataflow over clang CFG (bounds), symbolic layout algebra on the address expression, "
         "must-pass-through (flush), resolved-callee provenance",
     ),
@@ -32,7 +33,9 @@ CLAIMED = {
         "(values surviving resize/grow, aliasing, iteration order) is NOT decided, except: Array<1>::resize zero-fills exactly the "
         "complement of the recorded old range, and every bulk copy into this->begin() of VectorWithOffset fits the storage (range just "
         "established by resize(), or range reset to the start of the allocation + capacity test/reserve for the source's size + length "
-        "taken from the source, on every path).",
+        "taken from the source, on every path); every element-wise loop over several operands advances all its "
+        "iterators exactly once per iteration on every path; no comparison or std::equal/mismatch in the array classes and IndexRange "
+        "compares an operand with itself (regularity and equality tests look at both things they are about).",
         technique="static analysis: interval entailment from must-facts over clang CFG, loop-shape invariants, API post-condition summaries",
     ),
     "C05": dict(
@@ -44,7 +47,13 @@ CLAIMED = {
         "overwrites a field invalidates already_set_up (comparison-before-overwrite idiom checked); (c) every viewgram set handed back by "
         "get_viewgrams is end-plane-zeroed after its last modification when requested; (d) accumulators start from zero: every path to "
         "add_subset_sensitivity(slot[k], k) zero-fills the slot, replaces it by a fresh empty copy or (subset sensitivities off) aliases it "
-        "to slot 0, and distributable_computation zeroes its optional outputs before accumulating. All formula clauses of C05 (value, "
+        "to slot 0, and distributable_computation zeroes its optional outputs before accumulating; (e) the element-wise sums of the objective-function helpers advance all "
+        "iterators in lock step; (f) value, gradient, sensitivity and Hessian requests hand the projection/distributable layer the one "
+        "symmetric segment range (-max_segment_num_to_process, +max_segment_num_to_process); (g) in the penalised wrappers the prior is asked "
+        "about the same input images as the data part and its share is accumulated separately from the output (defect F13, fixed); (h) "
+        "every get_(empty_)related_viewgrams request of the Hessian code passes the TOF index of the indices it iterates over explicitly "
+        "(the default argument overwrites it with 0) - 7 call sites violate this today and are recorded as KNOWN FINDING F15 (TOF "
+        "Hessian products wrong; replayed; not repaired because the 7-line repair is not sufficient on its own). All formula clauses of C05 (value, "
         "gradient, sensitivity, Hessian, subset sums, penalised = unpenalised - prior) are numerical and NOT decided.",
         technique="static analysis: finite-domain abstract interpretation of flag typestate over clang CFG; setter-invalidation "
         "must-pass-through with idiom ordering",
@@ -73,7 +82,9 @@ CLAIMED = {
         "of its members' with absent members as 1 and apply/undo visit each member once; check() precedes every modification; the chain "
         "sets up base and members and propagates failure; every set_up is idempotent (no member updated from its own previous value); the "
         "trivial normalisation's apply/undo are empty; apply/undo/get_bin_efficiency and the helpers of their class they call assign no "
-        "member of the object (no hidden state: the factor of a bin cannot depend on the object's history). Efficiency values, "
+        "member of the object (no hidden state: the factor of a bin cannot depend on the object's history); data that apply/undo/get_bin_efficiency read and that set_up derives from the "
+        "object's inputs is rebuilt by every successful set_up (the inputs can be changed in place between two calls, so a "
+        "'nothing changed' shortcut would leave stale factors). Efficiency values, "
         "ACF = exp(line integral), positivity are NOT decided.",
         technique="static analysis: sibling (dual) agreement of effect summaries with data-flow source signatures, must-pass-through, "
         "self-dependence of member updates in set_up",
@@ -123,7 +134,9 @@ CLAIMED = {
         "(-timing, rings exchanged)) and get_det_pos_pair_for_bin exchanges the positions exactly for a negative TOF index and stores "
         "|t|*mash; every read of a lazily built geometry table is preceded on every path by its ..._if_not_done_yet() (directly or via a "
         "callee that initialises whenever it reports success); every function changing an input of the ring-difference tables resets "
-        "ring_diff_arrays_computed; table elements shared between copies of the object are replaced by fresh objects before being filled. "
+        "ring_diff_arrays_computed; table elements shared between copies of the object are replaced by fresh objects before being filled; what a lazily "
+        "built detector/bin table stores is computed from scanner-fixed quantities only (anything a setter can change later - "
+        "view mashing, number of views - is applied per call, not baked into the table - unless every setter of that input resets the table's flag). "
         "NOT decided: that the interleaving formula and its hand inversion are mutual inverses, that the Michelogram formulas partition "
         "ring pairs, reported counts (modular arithmetic over runtime scanner parameters).",
         technique="static analysis: branch-structure duality check, must-pass-through with success-conditional callee summaries, "
@@ -231,7 +244,8 @@ CLAIMED = {
         "on every path; the accumulation runs over all input views, the tangential range common to both data sets, all axial positions and "
         "TOF bins of the input, the output view being input view / (in_views / out_views) with error() for a non-divisible view count; the "
         "output is divided only when normalisation was requested. For zoom_image (3D and 2D): each axis is interpolated with zoom = in size / "
-        "out size and offset = (out origin - in origin) / in size of THAT axis; the scaling switch covers every ZoomOptions::Scaling "
+        "out size and offset = (out origin - in origin) / in size of THAT axis, and every output element is written (no part of the "
+        "output keeps what the caller's image held before); the scaling switch covers every ZoomOptions::Scaling "
         "enumerator (preserve_sum unscaled, preserve_values product of all zooms, preserve_projections product of the zooms except x); the "
         "in-place and parameter-taking variants delegate to the one implementation with their own arguments in order. NOT decided: that "
         "matching by get_m / get_k puts every input sinogram into the right output sinogram, count conservation, centre of mass, "
@@ -247,7 +261,9 @@ CLAIMED = {
         "branch the denominator loop computes exactly clamp(g/N + s, s/10, 10 s) (additive) resp. s*clamp(1+g, 1/10, 10) (multiplicative) "
         "- the documented bounds, compared as piecewise-linear functions with C++ integer division semantics - and the division follows that loop; the "
         "voxelwise loops advance all their iterators exactly once per iteration on every path, divide() zeroes an element only when both "
-        "|denominator| and |numerator| are below the threshold, the multiplicative update multiplies element by element. The EM update formula, "
+        "|denominator| and |numerator| are below the threshold, the multiplicative update multiplies element by element; an inter-update / "
+        "inter-iteration filter is only ever applied through the positivity-preserving wrapper set_up installs around it (chained with a "
+        "threshold), on every path. The EM update formula, "
         "non-negativity, monotonicity, count preservation and restart equivalence are NOT decided.",
         technique="static analysis: must-pass-through ordering with resolved operands, closed-form evaluation of a straight-line loop "
         "body and exact piecewise-linear comparison",
